@@ -365,6 +365,15 @@ def reject(ctx, rn, fam, fs):
                     if sb is None and 'Some' in (si.get('otherwise_variants') or []):
                         sb = si['otherwise']
                     ok = sb is not None and all_paths_err(rn, sb)
+        if not ok:
+            # `if names.insert(..).is_some() { return Err(..) }`
+            for bb, t in rn.calls():
+                if strip_generics(cname(t)).endswith(('Option::is_some', 'Option::is_none')) and any(c is it for c in origin(rn, t['args'][0]).calls):
+                    sw = t.get('target')
+                    if sw is not None and rn.term(sw)['k'] == 'switch':
+                        t0 = [x['bb'] for x in rn.term(sw)['targets'] if x['v'] == 0]
+                        some_edge = rn.term(sw)['otherwise'] if strip_generics(cname(t)).endswith('is_some') else (t0[0] if t0 else None)
+                        ok = some_edge is not None and all_paths_err(rn, some_edge)
     ctx.ob('REJECT', 'duplicate-definition', ok, short_loc(rn.span), 'names.insert(..) returning Some (duplicate fullname) returns Err: %s' % ok)
     # missing attributes: count the distinct "Missing field" error sites by attribute
     attrs = {}
@@ -438,7 +447,7 @@ def bool_table_writes(b):
         for s in b.stmts(bb):
             if 'assign' in s and s['assign'].get('p') and s['rv']['k'] == 'use' and const_int(s['rv']['op']) in (0, 1):
                 o = origin(b, s['assign'])
-                ps = [a[1] for a in o.atoms if a[0] == 'param' and 'Vec<bool>' in b.local_ty(a[1])]
+                ps = [a[1] for a in o.atoms if a[0] == 'param' and is_bool_table(b.local_ty(a[1]))]
                 if len(ps) == 1 and 'index' in o.flags:
                     out.append((bb, ps[0], const_int(s['rv']['op'])))
     return out
@@ -456,7 +465,7 @@ def cyclecheck(ctx):
     ctx.touched(inner, len(inner.calls())); ctx.touched(outer, len(outer.calls()))
     pt = positional_truncations(inner) + positional_truncations(outer)
     ctx.ob('CYCLECHECK', 'visits-whole-collections', not pt, short_loc(inner.span), 'positional selections (take / skip / nth / first / sub-range) in the cycle search: %s' % (sorted({x[2] for x in pt}) or 'none'))
-    tables = [i for i in range(1, inner.nargs + 1) if 'Vec<bool>' in inner.local_ty(i)]
+    tables = [i for i in range(1, inner.nargs + 1) if is_bool_table(inner.local_ty(i))]
     ctx.ob('CYCLECHECK', 'two-tables', len(tables) == 2, short_loc(inner.span), 'boolean per-node tables passed down the search: %d (on-stack and done)' % len(tables))
     w = bool_table_writes(inner)
     rec = [(bb, t) for bb, t in inner.calls() if (t.get('resolved') or t.get('callee')) == inner.id]
@@ -469,7 +478,7 @@ def cyclecheck(ctx):
         for d, si, taken in dominating_switches(inner, bb):
             if si.get('kind') != 'enum':
                 so = origin(inner, si['op'])
-                ps = [a[1] for a in so.atoms if a[0] == 'param' and 'Vec<bool>' in inner.local_ty(a[1])]
+                ps = [a[1] for a in so.atoms if a[0] == 'param' and is_bool_table(inner.local_ty(a[1]))]
                 if len(ps) == 1 and 'index' in so.flags and taken == ('val', (0,)) and ps[0] in entry_sets:
                     onstack = ps[0]
                     # the other edge (already on the stack) errs
@@ -477,6 +486,14 @@ def cyclecheck(ctx):
                     ctx.ob('CYCLECHECK', 'on-stack-child-errs', all(all_paths_err(inner, s_) for s_ in others), short_loc(inner.span), 'a record field whose record is on the search stack returns Err')
                     ic = [c for c in so.calls if call_matches(c, ['Index::index', 'Index<I>>::index', 'IndexMut::index_mut', 'IndexMut<I>>::index_mut'])]
                     io = origin(inner, ic[0]['args'][1]) if ic else Origin()
+                    if not ic:
+                        # a slice table is indexed by a place projection `table[i]`: take the index local from it
+                        pl_ = op_place(si['op'])
+                        for d_ in inner.defs().get(pl_['l'], []) if pl_ else []:
+                            if d_[2] == 'assign' and d_[3]['k'] == 'use' and op_place(d_[3]['op']):
+                                for e_ in op_place(d_[3]['op']).get('p', []):
+                                    if isinstance(e_, dict) and 'idx' in e_:
+                                        io = origin(inner, {'copy': {'l': e_['idx']}})
                     ctx.ob('CYCLECHECK', 'tests-the-child', 'type_' in io.fields and 'idx' in io.fields, short_loc(inner.span), 'the on-stack test is indexed by the field\'s node key: %s' % sorted(io.fields))
     ctx.ob('CYCLECHECK', 'on-stack-table-found', onstack is not None, short_loc(inner.span), 'recursion guarded by a test of a per-node table: %s' % (onstack is not None))
     if onstack is None:
